@@ -75,5 +75,8 @@ Definition run (s : sx) : sx :=
       let i := xSeq (a 2%nat) in oResD true i (quantize_rel_legacy (xZ (a 1%nat)) i)
   | 6 => (* decoding of a float code, echoed as (mantissa exponent) *)
       oFloat (fdec (xZ (a 1%nat)))
+  | 7 => (* quantize_to_step with an explicit quantize_cutoff: (t...) sps cutoff (codes) -> (steps) *)
+      let sps := fdec (xZ (a 2%nat)) in let c := fdec (xZ (a 3%nat)) in
+      oZs (map (fun tc => q2s_cut c (fdec tc) sps) (xZs (a 1%nat)))
   | _ => oErr 99
   end.
